@@ -24,6 +24,8 @@ TBPROBE_C = "lib/texellib/tb/tbprobe.cpp"
 PG_C = "lib/texellib/book/polyglot.cpp"
 
 # (name, module, file, old, new, expectation)   expectation: "break" | "pass"
+Q_LOOP = '        if (depth < -6 && mi >= 2)\n            continue;\n        if (!realInCheckComputed) {\n            realInCheck = MoveGen::inCheck(pos);\n            realInCheckComputed = true;\n        }\n        if (!MoveGen::isLegal(pos, m, realInCheck))\n            continue;\n\n        if (!givesCheckComputed && (depth - 1 > -2))\n            givesCheck = MoveGen::givesCheck(pos, m);\n        const bool nextInCheck = (depth - 1) > -2 ? givesCheck : false;\n\n        pos.makeMove(m, ui);\n        totalNodes++;\n#ifdef TEXEL_VERIF\n        if (threadNo == 0) VerifClock::tickNode();\n#endif\n        nodesToGo--;\n        score = -quiesce('
+
 CASES = [
     # ---- semantic mutations: must be caught --------------------------------------------------------------------
     ("getIndex: r >>= 15", "TT", TT_H, "    r >>= 16;\n    r <<= usedSizeShift;", "    r >>= 15;\n    r <<= usedSizeShift;", "break"),
@@ -163,6 +165,40 @@ CASES = [
     ("polyglot getMove: hex masks, declarations reordered", "Book", PG_C,
      "    int toFile = move & 7;\n    int toRow = (move >> 3) & 7;\n    int fromFile = (move >> 6) & 7;\n    int fromRow = (move >> 9) & 7;\n    int prom = (move >> 12) & 7;",
      "    int toFile = move & 0x7;\n    int fromFile = (move >> 6) & 0x7;\n    int toRow = (move >> 3) & 0x7;\n    int prom = (move >> 12) & 0x7;\n    int fromRow = (move >> 9) & 0x7;", "pass"),
+    # ---- SearchGuards (C04): guards / clamps / terminal scores of negaScout and quiesce ---------------------------
+    ("negaScout: null-move win clamp disabled (m1)", "SearchGuards", SEARCH_C, "                if (isWinScore(score))\n                    score = beta;\n                return logAndReturn(score, TType::T_GE);", "                if (false && isWinScore(score))\n                    score = beta;\n                return logAndReturn(score, TType::T_GE);", "break"),
+    ("negaScout: LMP without !isLoseScore(bestScore) (m2)", "SearchGuards", SEARCH_C, "if (normalBound && !isLoseScore(bestScore) && (mi >= lmpMoveCountLimit))", "if (normalBound && (mi >= lmpMoveCountLimit))", "break"),
+    ("negaScout: normalBound forced true (m3)", "SearchGuards", SEARCH_C, "const bool normalBound = !isLoseScore(alpha) && !isWinScore(beta);", "const bool normalBound = true;", "break"),
+    ("negaScout: null move entered with win beta (m4)", "SearchGuards", SEARCH_C, "sti.allowNullMove && !isWinScore(beta) &&", "sti.allowNullMove &&", "break"),
+    ("negaScout: null move clamps to beta + 1", "SearchGuards", SEARCH_C, "                if (isWinScore(score))\n                    score = beta;", "                if (isWinScore(score))\n                    score = beta + 1;", "break"),
+    ("negaScout: null-move result returned as exact", "SearchGuards", SEARCH_C, "                    score = beta;\n                return logAndReturn(score, TType::T_GE);", "                    score = beta;\n                return logAndReturn(score, TType::T_EXACT);", "break"),
+    ("negaScout: null move while in check", "SearchGuards", SEARCH_C, "if ((depth >= 3) && !inCheck && sti.allowNullMove", "if ((depth >= 3) && sti.allowNullMove", "break"),
+    ("negaScout: razoring while in check", "SearchGuards", SEARCH_C, "if (normalBound && !inCheck && (depth < 4) && (beta == alpha + 1) && !singularSearch) {", "if (normalBound && (depth < 4) && (beta == alpha + 1) && !singularSearch) {", "break"),
+    ("negaScout: razoring returns a lower bound", "SearchGuards", SEARCH_C, "                evalScore = q0Eval;\n                return logAndReturn(score, TType::T_LE);", "                evalScore = q0Eval;\n                return logAndReturn(score, TType::T_GE);", "break"),
+    ("negaScout: reverse futility returns eval + margin", "SearchGuards", SEARCH_C, "return logAndReturn(evalScore - margin, TType::T_GE);", "return logAndReturn(evalScore + margin, TType::T_GE);", "break"),
+    ("negaScout: futility score eval - margin", "SearchGuards", SEARCH_C, "futilityScore = evalScore + margin;", "futilityScore = evalScore - margin;", "break"),
+    ("negaScout: pruning before a legal move was found", "SearchGuards", SEARCH_C, "if ((pass == 0) && mayReduce && haveLegalMoves && !givesCheck && !passedPawnPush(pos, m)) {", "if ((pass == 0) && mayReduce && !givesCheck && !passedPawnPush(pos, m)) {", "break"),
+    ("negaScout: mated score off by one", "SearchGuards", SEARCH_C, "const int illegalScore = -(MATE0-(ply+1));", "const int illegalScore = -(MATE0-ply);", "break"),
+    ("negaScout: mate-distance bound MATE0-ply-2", "SearchGuards", SEARCH_C, "beta = std::min(beta, MATE0-ply-1);", "beta = std::min(beta, MATE0-ply-3);", "break"),
+    ("negaScout: mate-distance cut returns beta", "SearchGuards", SEARCH_C, "    if (alpha >= beta)\n        return alpha;\n\n    if (logFile.isOpened()) {", "    if (alpha >= beta)\n        return beta;\n\n    if (logFile.isOpened()) {", "break"),
+    ("negaScout: fail-high override on win scores", "SearchGuards", SEARCH_C, "(ent.getScore(ply) < score) && isLoseScore(ent.getScore(ply))) {", "(ent.getScore(ply) < score) && isWinScore(ent.getScore(ply))) {", "break"),
+    ("negaScout: fail-high override accepts lower-bound entries", "SearchGuards", SEARCH_C, "if ((ent.getType() == TType::T_EXACT || ent.getType() == TType::T_LE) &&\n                        (ent.getScore(ply) < score)", "if ((ent.getType() == TType::T_EXACT || ent.getType() == TType::T_GE) &&\n                        (ent.getScore(ply) < score)", "break"),
+    ("negaScout: fail-low override accepts upper-bound entries", "SearchGuards", SEARCH_C, "if ((ent.getType() == TType::T_EXACT || ent.getType() == TType::T_GE) &&\n                (ent.getScore(ply) > alpha)", "if ((ent.getType() == TType::T_EXACT || ent.getType() == TType::T_LE) &&\n                (ent.getScore(ply) > alpha)", "break"),
+    ("negaScout: fail-low override returned as upper bound", "SearchGuards", SEARCH_C, "            hashMove.setScore(bestScore);\n            tType = TType::T_GE;", "            hashMove.setScore(bestScore);\n            tType = TType::T_LE;", "break"),
+    ("negaScout: stalemate score 1", "SearchGuards", SEARCH_C, "return logAndReturn(0, TType::T_EXACT); // Stale-mate", "return logAndReturn(1 - MATE0 / 2 - 2, TType::T_EXACT); // Stale-mate", "break"),
+    ("negaScout: singular search from mate scores", "SearchGuards", SEARCH_C, "(!isWinScore(std::abs(ent.getScore(ply))) || !normalBound) &&", "(!isWinScore(ent.getScore(ply)) || !normalBound) &&", "break"),
+    ("quiesce: in-check score off by one", "SearchGuards", SEARCH_C, "    if (inCheck) {\n        score = -(MATE0 - (ply+1));\n    } else {\n        if ((depth == 0) && (q0Eval != UNKNOWN_SCORE)) {\n            score = q0Eval;\n        } else {\n            score = eval.evalPos();\n            if (depth == 0)\n                q0Eval = score;\n        }\n    }\n    if (depth == 0)\n        sampler", "    if (inCheck) {\n        score = -(MATE0 - ply);\n    } else {\n        if ((depth == 0) && (q0Eval != UNKNOWN_SCORE)) {\n            score = q0Eval;\n        } else {\n            score = eval.evalPos();\n            if (depth == 0)\n                q0Eval = score;\n        }\n    }\n    if (depth == 0)\n        sampler", "break"),
+    ("quiesce: evasions skipped from depth -1", "SearchGuards", SEARCH_C, Q_LOOP, Q_LOOP.replace("if (depth < -6 && mi >= 2)", "if (depth < 0 && mi >= 2)"), "break"),
+    ("quiesce: in-check passed down to depth -8", "SearchGuards", SEARCH_C, Q_LOOP, Q_LOOP.replace("const bool nextInCheck = (depth - 1) > -2 ? givesCheck : false;", "const bool nextInCheck = (depth - 1) > -9 ? givesCheck : false;"), "break"),
+    # harmless rewrites
+    ("negaScout: normalBound by De Morgan", "SearchGuards", SEARCH_C, "const bool normalBound = !isLoseScore(alpha) && !isWinScore(beta);", "const bool normalBound = !(isWinScore(beta) || isLoseScore(alpha));", "pass"),
+    ("negaScout: LMP condition reordered", "SearchGuards", SEARCH_C, "if (normalBound && !isLoseScore(bestScore) && (mi >= lmpMoveCountLimit))", "if ((mi >= lmpMoveCountLimit) && !isLoseScore(bestScore) && normalBound)", "pass"),
+    ("negaScout: LMP limit compared with >", "SearchGuards", SEARCH_C, "if (normalBound && !isLoseScore(bestScore) && (mi >= lmpMoveCountLimit))", "if (normalBound && !isLoseScore(bestScore) && (mi + 1 > lmpMoveCountLimit))", "pass"),
+    ("negaScout: null-move entry condition reordered, depth limit 4", "SearchGuards", SEARCH_C, "    if ((depth >= 3) && !inCheck && sti.allowNullMove && !isWinScore(beta) &&\n            !singularSearch && (beta == alpha + 1)) {", "    if (!isWinScore(beta) && !singularSearch && (beta == alpha + 1) && (depth >= 4) &&\n            sti.allowNullMove && !inCheck) {", "pass"),
+    ("negaScout: null-move clamp as a ternary", "SearchGuards", SEARCH_C, "                if (isWinScore(score))\n                    score = beta;\n                return logAndReturn(score, TType::T_GE);", "                score = isWinScore(score) ? beta : score;\n                return logAndReturn(score, TType::T_GE);", "pass"),
+    ("negaScout: another local called score declared earlier", "SearchGuards", SEARCH_C, "    // Mate distance pruning\n    beta = std::min(beta, MATE0-ply-1);", "    { int score = 0; int margin = score; (void)margin; }\n    // Mate distance pruning\n    beta = std::min(beta, MATE0-ply-1);", "pass"),
+    ("negaScout: razoring depth limit 3, margins swapped", "SearchGuards", SEARCH_C, "if (normalBound && !inCheck && (depth < 4) && (beta == alpha + 1) && !singularSearch) {", "if (!singularSearch && normalBound && !inCheck && (depth < 3) && (beta == alpha + 1)) {", "pass"),
+    ("quiesce: skip limit -8", "SearchGuards", SEARCH_C, Q_LOOP, Q_LOOP.replace("if (depth < -6 && mi >= 2)", "if (depth < -8 && mi >= 3)"), "pass"),
 ]
 
 
